@@ -30,6 +30,17 @@ pub mod testgrammars {
     }
 }
 
+/// A fixed family of generated grammars compiled by pest_derive at build time (see build.rs).
+pub mod family {
+    include!(concat!(env!("OUT_DIR"), "/family.rs"));
+
+    /// the AST the build script generated grammar `i` from (same generator, same seed)
+    pub fn ast(i: usize) -> crate::gen::Grammar {
+        let mut rng = crate::prng::Rng::new(FAMILY_SEEDS[i]);
+        crate::gen::gen_grammar(&mut rng, &crate::gen::GenCfg::default())
+    }
+}
+
 #[derive(Clone, Debug, PartialEq, Eq)]
 pub enum Backend {
     /// pest_vm on an arbitrary grammar text
@@ -42,6 +53,8 @@ pub enum Backend {
     Meta,
     /// generated parser of vm/tests/{grammar,lists,reporting}.pest, entered at `rule`
     Test { grammar: String, rule: String },
+    /// generated parser (pest_derive) of member `index` of the build-time grammar family
+    Gen { index: usize, rule: String },
 }
 
 impl Backend {
@@ -54,12 +67,15 @@ impl Backend {
             Backend::Sql => "derive:sql",
             Backend::Meta => "derive:pest_meta",
             Backend::Test { .. } => "derive:test-grammars",
+            Backend::Gen { .. } => "derive:generated-family",
         }
     }
     pub fn to_json(&self) -> Value {
         match self {
             Backend::Vm { grammar, rule } => json!({"kind":"vm","grammar":grammar,"rule":rule}),
             Backend::Test { grammar, rule } => json!({"kind":"derive:test-grammars","grammar":grammar,"rule":rule}),
+            Backend::Gen { index, rule } => json!({"kind":"derive:generated-family","index":index,"rule":rule,
+                "grammar": family::FAMILY_TEXTS.get(*index)}),
             other => json!({"kind": other.name()}),
         }
     }
@@ -71,6 +87,10 @@ impl Backend {
             },
             "derive:test-grammars" => Backend::Test {
                 grammar: v.get("grammar")?.as_str()?.to_string(),
+                rule: v.get("rule")?.as_str()?.to_string(),
+            },
+            "derive:generated-family" => Backend::Gen {
+                index: v.get("index")?.as_u64()? as usize,
                 rule: v.get("rule")?.as_str()?.to_string(),
             },
             "derive:json" => Backend::Json,
@@ -237,7 +257,7 @@ fn outcome_err<R: RuleType>(e: Error<R>, input: &str) -> Outcome {
     Outcome { core, attempts }
 }
 
-fn from_result<R: RuleType>(r: Result<Pairs<'_, R>, Error<R>>, input: &str) -> Outcome {
+pub(crate) fn from_result<R: RuleType>(r: Result<Pairs<'_, R>, Error<R>>, input: &str) -> Outcome {
     match r {
         Ok(p) => Outcome {
             core: core_ok(p),
@@ -269,6 +289,12 @@ impl Prepared {
             }
             Backend::Test { grammar, rule } => {
                 if !test_grammar_rules(grammar).contains(rule) {
+                    return None;
+                }
+                None
+            }
+            Backend::Gen { index, .. } => {
+                if *index >= family::FAMILY {
                     return None;
                 }
                 None
@@ -307,6 +333,8 @@ impl Prepared {
                 pest_meta::parser::parse(pest_meta::parser::Rule::grammar_rules, input),
                 input,
             ),
+            Backend::Gen { index, rule } => family::family_parse(*index, rule, input)
+                .expect("harness: unknown member / rule of the generated family"),
             Backend::Test { grammar, rule } => {
                 macro_rules! go {
                     ($m:ident) => {{
